@@ -921,7 +921,7 @@ func main() {
 			"searchdocs": chSD, "proxymerge": chPx}
 		for _, l := range lines {
 			kind := strings.Fields(l + " .")[0]
-			if kind == "sys" || kind == "cluster" {
+			if kind == "sys" || kind == "cluster" || kind == "sysbig" {
 				sysLines = append(sysLines, l)
 			} else if ch := byKind[kind]; ch != nil {
 				ch.Add(l, runOp(l), true, "replay")
@@ -947,7 +947,12 @@ func main() {
 			genSearchDocs(g, chSD, orcSD, rep, o.Pick(600, 8000), o.Pick(4, 7))
 		})
 		stage("proxy", func() { genProxy(g, chPx, orcPx, rep, o.Pick(400, 5000)) })
-		stage("sys", func() { runSys(append(genSys(g, o), genCluster(g, o)...), chReal, orcSys, rep, o) })
+		stage("sys", func() {
+			lines := append(genSys(g, o), genCluster(g, o)...)
+			// posting lists longer than one LID block (65536 entries) of a sealed fraction
+			lines = append(lines, fmt.Sprintf("sysbig n=%d k=%d", o.Pick(70000, 140000), o.Pick(3, 5)))
+			runSys(lines, chReal, orcSys, rep, o)
+		})
 	}
 	for _, ch := range []*vh.Channel{chMerge, chEns, chSort, chFilt, chPag, chSD, chPx, chReal} {
 		t0 := time.Now()
